@@ -26,6 +26,8 @@ type Ev struct {
 }
 
 type Case struct {
+	// DupStore: the option list carries an earlier WithStore naming another store.
+	DupStore bool `json:"dup_store,omitempty"`
 	Config string `json:"config"`          // mem-stream mem-paged sqlite sqlite-batched sqlitemem sqlitemem-batched durable
 	Batch  int    `json:"batch,omitempty"` // replay batch size (paged paths; 0 = default) / sqlite stream batch
 	Chunk  int    `json:"chunk,omitempty"` // durable-streams chunk bytes
@@ -110,6 +112,15 @@ func Run(c *Case) *vkit.Outcome {
 	}
 
 	// the bus (created before the log is filled: it may be the writer)
+	if c.DupStore {
+		// an option list assembled from defaults and overrides: an earlier
+		// WithStore names another (streaming, non-empty) store; the last one wins
+		decoy := eventbus.NewMemoryStore()
+		for i := 0; i < 3; i++ {
+			decoy.Append(bg, &eventbus.Event{Type: "decoy", Data: []byte(`{"i":-7}`)})
+		}
+		opts = append([]eventbus.Option{eventbus.WithStore(decoy)}, opts...)
+	}
 	opts = append(opts, eventbus.WithStore(store))
 	bus := eventbus.New(opts...)
 	var liveCalls atomic.Int32
